@@ -266,6 +266,22 @@ def check(rep, c, cfg):
         arms_seen.setdefault(key, 0)
         arms_seen[key] += 1
         if not conds:
+            # the failure report delegated to a helper of the parser-state module that asks the tracker itself
+            # (`Err(state.failure_error(input))`): acceptable on a path that does not return Ok
+            def consults(path, d=0):
+                h = c.fn(path) if isinstance(path, str) else None
+                if h is None or h.get("body") is None or d > 3 or not path.startswith("pest::parser_state::"):
+                    return False
+                for x in walk(h["body"]):
+                    if kind(x) in ("MethodCall", "Call") and isinstance(callee(x), str):
+                        if callee(x) in wrappers or consults(callee(x), d + 1):
+                            return True
+                return False
+            delegated = any(e.kind == "call" and consults(callee(e.node)) for e in after)
+            returns_ok = any(e.kind == "call" and callee(e.node) == "core::result::Result::Ok" for e in after)
+            if delegated and not returns_ok:
+                continue
+        if not conds:
             absorbed = True
             r2.violation(key, where(arm.node["arms"][arm.extra]["body"]) if arm else where(st["body"]),
                          "the %s arm of pest::state returns without consulting the call-limit tracker: a "
